@@ -197,13 +197,24 @@ def ast_facts(loop, conflict):
             facts.append("scalar_conditional_write")
     else:
         hit = [False]
+        lv = loop[1].lower()
+
+        def uses_lv(x):
+            found = [False]
+            flite.walk_expr(x, lambda y: found.__setitem__(
+                0, found[0] or (y[0] == "var" and y[1].lower() == lv)))
+            return found[0]
 
         def chk(e):
             if e[0] == "arr" and e[1] == name:
                 for sub in e[2]:
                     if sub[0] != "rng":
+                        # an integer division whose operands involve the
+                        # LOOP VARIABLE (the recorded mechanism); a division
+                        # of loop-invariant terms does not count
                         flite.walk_expr(sub, lambda x: hit.__setitem__(
-                            0, hit[0] or (x[0] == "bin" and x[1] == "/")))
+                            0, hit[0] or (x[0] == "bin" and x[1] == "/"
+                                          and uses_lv(x))))
 
         def st(s):
             if s[0] == "assign":
